@@ -1,6 +1,7 @@
 //! Per-property checks.
 use crate::driver::{CheckCtx, Found, PropMeta, Violation};
 
+pub mod c19;
 pub mod c20;
 pub mod histprops;
 
@@ -12,6 +13,7 @@ pub struct PropEntry {
 
 pub fn registry() -> Vec<PropEntry> {
     vec![
+        PropEntry { meta: &c19::META, check: c19::check, replay: c19::replay },
         PropEntry { meta: &c20::META, check: c20::check, replay: c20::replay },
         PropEntry { meta: &histprops::C01_META, check: |c| histprops::hist_check(c, &histprops::C01), replay: |_, _, v| histprops::hist_replay(&histprops::C01, v) },
         PropEntry { meta: &histprops::C02_META, check: |c| histprops::hist_check(c, &histprops::C02), replay: |_, _, v| histprops::hist_replay(&histprops::C02, v) },
